@@ -265,6 +265,46 @@ def r09_5(chk, facts, model):
                 chk.fail('R09.5', site, fn['file'], fn['l'], 'compare(): cell (%s, %s)%s is %s but the mirrored cell is %s' % (
                     n1, n2, tagtxt, '/'.join(sorted(cls)), '/'.join(sorted(m))), facts_, fn['q'])
 
+def r09_6(chk, facts):
+    """Duplicate-key filter of order_preserving_json_object: the Bloom filter must know every key that was appended unchecked."""
+    chk.rule('R09.6', 'bloom filter soundness: where a key that the filter reports as new is appended to data_ without a duplicate search, the '
+                      'filter is updated with that key on every path to the next key (bloom_set must-pass), and a key the filter may already '
+                      'contain goes through a duplicate-checking insert', floor=3)
+    n = 0; seen = set()
+    for fn in facts.functions:
+        if fn.get('dep') or fn.get('body') is None or not fn['file'].endswith('ordered_json_object.hpp') or (fn['file'], fn['l']) in seen: continue
+        tests = [c for c in A.calls_in(fn['body'], no_lambda=True) if A.callee_name(c) == 'bloom_may_contain']
+        if not tests: continue
+        seen.add((fn['file'], fn['l']))
+        chk.analysed(fn)
+        g = C.CFG(fn['body'])
+        sets = [nd for nd in g.rpo if nd.kind in ('stmt', 'cond') and isinstance(nd.ast, dict) and any(A.callee_name(c) == 'bloom_set' for c in A.calls_in(nd.ast))]
+        heads = [nd for nd in g.rpo if nd.kind == 'join' and any(g.dominates(nd, p_) for p_ in nd.pred)] + [g.exit_return]
+        from .. import guards as G
+        for i, t in enumerate(tests):
+            nd = g.node_of(t)
+            if nd is None or nd.kind != 'cond': continue
+            n += 1
+            site = U.site(fn, 'bloom test#%d' % (i + 1))
+            neg = [e for e in nd.succ if e.label is False]; pos = [e for e in nd.succ if e.label is True]
+            bad = None
+            for e in neg:
+                for m in G.region_of_edge(g, e):
+                    if m.kind == 'stmt' and isinstance(m.ast, dict):
+                        for c in A.calls_in(m.ast):
+                            if A.callee_name(c) in ('emplace_back', 'push_back', 'emplace', 'insert') and A.ref_name(c.get('obj')) == 'data_':
+                                if m not in sets and any(g.can_reach(s2, heads, avoid=sets) for s2 in m.succ):
+                                    bad = (c.get('l'), 'a key the filter reports as new is appended at line %s and the next key is reached without bloom_set(): a later duplicate of it is appended again' % c.get('l'))
+            for e in pos:
+                for m in G.region_of_edge(g, e):
+                    if m.kind == 'stmt' and isinstance(m.ast, dict):
+                        for c in A.calls_in(m.ast):
+                            if A.callee_name(c) in ('emplace_back', 'push_back') and A.ref_name(c.get('obj')) == 'data_':
+                                bad = (c.get('l'), 'a key the filter may already contain is appended at line %s without a duplicate search' % c.get('l'))
+            if bad is None: chk.ok('R09.6', site, {'function': fn['n'], 'line': t.get('l')})
+            else: chk.fail('R09.6', site, fn['file'], bad[0], '%s: %s' % (fn['n'], bad[1]), None, fn['q'])
+    chk.require(n >= 3, 'R09.6: only %d bloom filter tests found' % n)
+
 def run(chk, tier, only_rule=None):
     chk.explanation = EXPLANATION
     chk.not_decided = NOT_DECIDED
@@ -273,4 +313,5 @@ def run(chk, tier, only_rule=None):
     model = K.KindModel(facts, chk)
     r09_1_2(chk, facts, model)
     r09_4(chk, facts)
+    r09_6(chk, facts)
     r09_5(chk, facts, model)
